@@ -52,8 +52,10 @@ def fill_receivers(repo, cls, f):
                 continue
             gens.append((n.targets[0], n.value))
         for tgt, it in gens:
+            called = {id(c0.func) for c0 in ast.walk(it) if isinstance(c0, ast.Call)}       # self.index(q): a method, not a slot
+            tests = {id(x) for c0 in ast.walk(it) if isinstance(c0, ast.IfExp) for x in ast.walk(c0.test)}   # the test selects, it is not the value
             attrs = {a.attr for a in ast.walk(it) if isinstance(a, ast.Attribute) and isinstance(a.value, ast.Name)
-                     and a.value.id == selfname and a.attr not in ("quantity", "transform")}
+                     and a.value.id == selfname and a.attr not in ("quantity", "transform") and id(a) not in called and id(a) not in tests}
             for a in ast.walk(it):
                 if isinstance(a, ast.Name) and a.id in var_src:
                     attrs |= var_src[a.id]          # e.g. a tuple of alternatives bound earlier
